@@ -1,2 +1,274 @@
-(* placeholder while the harness is being developed *)
-From ScaredV Require Import Model.SelFun.
+(* Props/C07.v — property C07: ready-made AES / DES attack selection functions predict the real cipher state under the true key.
+   Only statements closed by [exact]; Print Assumptions beneath each.  Proofs are in Proofs/SelFun*.v.
+
+   Vocabulary.
+     Generated/SelFunWiring.v  (T-tie, regenerated from the source on every run) the wiring of every public class of
+                               scared.{aes,des}.selection_functions.{encrypt,decrypt}: computing function, expected-key
+                               function, default guesses / words / tags, the decrypt aliases, the bodies of _first_key /
+                               _last_key (index into the key schedule) and of the computing helpers (array expressions).
+     [aes_rows ns] / [des_rows ns] (Model/SelFun.v) = every public class of namespace ns as wired in the source.
+     Spec/SelFunTargets.v      one row per class: which array it consumes (DIn = input of the operation of the namespace, DOut = its
+                               output), which round key holds the expected key, the word function F_w(data, g) written with the
+                               primitives of the standard, and the targeted state of Cipher_states / InvCipher_states (FIPS-197)
+                               or des_state_at (FIPS 46-3).
+     [aes_values_m row data guesses] / [des_values_m ..]  the (traces, guesses, words) array computed by the class's function:
+                               evaluation of the generated helper expression on nested lists (guess loop, swapaxes, table
+                               primitives of C05, broadcast xor; for DES the impl-model of des.encrypt of C06 with 128 equal words).
+     [full_F F nW data guesses] the array whose entry (t, j, w) is F (data[t]) (guesses[j]) w.
+     [sf_call_m]               SelectionFunction.__call__: values.swapaxes(0, -1)[words].swapaxes(0, -1).
+   Well-formedness (byte values, lengths, at least one trace and one guess, DES guesses below 64) is an explicit hypothesis. *)
+From Coq Require Import NArith ZArith Bool Arith String List.
+From ScaredV Require Import Generated.SelFunWiring Spec.Fips197 Spec.Fips46 Spec.SelFunTargets Model.SelFun
+  Proofs.AesPrims Proofs.DesSpec Proofs.SelFun Proofs.SelFunStops.
+From ScaredV Require Model.Aes Model.Des.
+Import ListNotations.
+Open Scope N_scope.
+
+(* ================================================================ AES *)
+(* For EVERY row of the generated wiring table (10 classes: 5 per namespace): the class has a spec row of the same name; its
+   default tags, default guesses (all 256, in order) and default words (all) are those of the spec; for all data and guesses
+   the computed array is, in the layout (traces, guesses, words), F_w(data[t], guesses[j]) of the spec row (every guess column is
+   the same computation with that guess in place of the key word); its expected-key function returns the spec's round key of
+   the FIPS-197 key expansion, for the three key sizes. *)
+Theorem aes_wiring : forall ns row, In row (aes_rows ns) -> exists sp,
+  find_aes (r_name row) (aes_targets ns) = Some sp /\ In sp (aes_targets ns)
+  /\ r_target_tag row = spec_tag ns (as_data sp) /\ r_key_tag row = spec_key_tag
+  /\ r_nguesses row = aes_n_guesses /\ r_words_none row = true
+  /\ (forall datas guesses, Forall wf datas -> datas <> [] -> bytes_lt 256 guesses -> guesses <> [] ->
+        aes_values_m row datas guesses = Some (T3 (full_F (aes_F (as_F sp)) 16 datas guesses)))
+  /\ (forall Nk key, In Nk [4; 6; 8]%nat -> Aes.wf_key Nk key ->
+        aes_expected_key_m row key = Some (nth (as_key_round sp (Nr_of Nk)) (round_keys Nk key) [])).
+Proof. exact aes_wiring_pf. Qed.
+Print Assumptions aes_wiring.
+
+(* Spec level, the real operation under the TRUE key (AES-128/192/256): for every spec row, F_w at the expected key word
+   K[w] is word w of the targeted state of Cipher_states (encrypt namespace; data = plaintext or ciphertext = Cipher key pt) /
+   InvCipher_states (decrypt namespace; data = ciphertext or plaintext = InvCipher key ct). *)
+Theorem aes_targets_true_key : forall ns sp Nk key inp,
+  In sp (aes_targets ns) -> In Nk [4; 6; 8]%nat -> Aes.wf_key Nk key -> Aes.wf_block inp ->
+  let S := aes_states ns Nk key inp in
+  let data := match as_data sp with DIn => inp | DOut => last S [] end in
+  let k := nth (as_key_round sp (Nr_of Nk)) (round_keys Nk key) [] in
+  Aes.wf_block data
+  /\ forall w, (w < 16)%nat -> aes_F (as_F sp) data (nth w k 0) w = nth w (aes_target_state (as_target sp) (Nr_of Nk) S) 0.
+Proof. exact aes_targets_true_key_pf. Qed.
+Print Assumptions aes_targets_true_key.
+
+(* "every other guess column is the same computation with that guess in place of the key word": the same statement for ANY
+   round keys (not only those of a key expansion): column g is what a real cipher whose round key has K[w] = g would have. *)
+Theorem aes_encrypt_targets_any_round_keys : forall Nr rks inp sp,
+  In Nr [10; 12; 14]%nat -> keys_wf Nr rks -> wf inp -> In sp aes_encrypt_targets ->
+  let S := cipher_states Nr rks inp in
+  wf (data_of sp inp S)
+  /\ forall w, (w < 16)%nat ->
+       aes_F (as_F sp) (data_of sp inp S) (nth w (nth (as_key_round sp Nr) rks []) 0) w = nth w (aes_target_state (as_target sp) Nr S) 0.
+Proof. exact aes_encrypt_targets_any_keys. Qed.
+Print Assumptions aes_encrypt_targets_any_round_keys.
+
+Theorem aes_decrypt_targets_any_round_keys : forall Nr rks inp sp,
+  In Nr [10; 12; 14]%nat -> keys_wf Nr rks -> wf inp -> In sp aes_decrypt_targets ->
+  let S := inv_cipher_states Nr rks inp in
+  wf (data_of sp inp S)
+  /\ forall w, (w < 16)%nat ->
+       aes_F (as_F sp) (data_of sp inp S) (nth w (nth (as_key_round sp Nr) rks []) 0) w = nth w (aes_target_state (as_target sp) Nr S) 0.
+Proof. exact aes_decrypt_targets_any_keys. Qed.
+Print Assumptions aes_decrypt_targets_any_round_keys.
+
+(* The property's first sentence, for every row of the generated table, every key size, key, batch of inputs and guesses:
+   the array has shape (traces, guesses, 16); entry (t, j, w) is F_w(data[t], guesses[j]); and where guesses[j] is the expected key
+   word of w (as returned by the class's expected-key function) it is word w of the targeted state of the real operation on
+   input t. *)
+Theorem aes_hypothesis_at_true_key : forall ns row, In row (aes_rows ns) ->
+  exists sp, find_aes (r_name row) (aes_targets ns) = Some sp /\
+  forall Nk key inps guesses, In Nk [4; 6; 8]%nat -> Aes.wf_key Nk key -> Forall Aes.wf_block inps -> inps <> [] ->
+    bytes_lt 256 guesses -> guesses <> [] ->
+    let states := map (aes_states ns Nk key) inps in
+    let datas := match as_data sp with DIn => inps | DOut => map (fun S => last S []) states end in
+    exists k v,
+      aes_expected_key_m row key = Some k
+      /\ aes_values_m row datas guesses = Some (T3 v)
+      /\ rect3 (length inps) (length guesses) 16 v
+      /\ forall t j w, (t < length inps)%nat -> (j < length guesses)%nat -> (w < 16)%nat ->
+           nth w (nth j (nth t v []) []) 0 = aes_F (as_F sp) (nth t datas []) (nth j guesses 0) w
+           /\ (nth j guesses 0 = nth w k 0 ->
+               nth w (nth j (nth t v []) []) 0 = nth w (aes_target_state (as_target sp) (Nr_of Nk) (nth t states [])) 0).
+Proof. exact aes_hypothesis_pf. Qed.
+Print Assumptions aes_hypothesis_at_true_key.
+
+(* the states the spec table names are stop points of the real cipher: the impl-model of scared.aes.encrypt / decrypt
+   (at_round, after_step) of C05 returns them (this is the table the harness's independent oracle uses on the real code) *)
+Theorem aes_targets_are_stop_points : forall Nk key inp, In Nk [4; 6; 8]%nat -> Aes.wf_key Nk key -> Aes.wf_block inp ->
+  let Nr := Nr_of Nk in
+  let S := Cipher_states Nk key inp in
+  let I := InvCipher_states Nk key inp in
+  Aes.encrypt_m key inp 0 3 = Some (nth 1 S [])
+  /\ Aes.encrypt_m key inp 1 0 = Some (nth 2 S [])
+  /\ Aes.encrypt_m key inp (Nr - 1) 3 = Some (nth (4 * Nr - 3) S [])
+  /\ Aes.encrypt_m key inp Nr 1 = Some (nth (4 * Nr - 1) S [])
+  /\ Aes.encrypt_m key inp Nr 3 = Some (last S [])
+  /\ Aes.decrypt_m key inp 0 0 = Some (nth 1 I [])
+  /\ Aes.decrypt_m key inp 0 3 = Some (nth 3 I [])
+  /\ Aes.decrypt_m key inp (Nr - 1) 2 = Some (nth (4 * Nr - 2) I [])
+  /\ Aes.decrypt_m key inp (Nr - 1) 3 = Some (nth (4 * Nr - 1) I [])
+  /\ Aes.decrypt_m key inp Nr 3 = Some (last I []).
+Proof. exact aes_targets_are_stop_points_pf. Qed.
+Print Assumptions aes_targets_are_stop_points.
+
+(* ================================================================ DES *)
+(* For EVERY row of the generated wiring table (16 classes: 8 per namespace): spec row of the same name, default tags, default
+   guesses (all 64, in order), default words; for all data and guesses below 64 the array computed by _des_function (the model
+   of des.encrypt with an all-equal 128-word key, stopped in round 0 after the helper's step) is F_w(data[t], guesses[j]) in the
+   layout (traces, guesses, words); the expected-key function returns K_1 or K_16 of the FIPS 46-3 key schedule as the spec says. *)
+Theorem des_wiring : forall ns row, In row (des_rows ns) -> exists sp,
+  find_des (r_name row) (des_targets ns) = Some sp /\ In sp (des_targets ns)
+  /\ r_target_tag row = spec_tag ns (ds_data sp) /\ r_key_tag row = spec_key_tag
+  /\ r_nguesses row = des_n_guesses /\ r_words_none row = true
+  /\ (forall datas guesses, blocks datas -> bytes_lt 64 guesses -> guesses <> [] ->
+        des_values_m row datas guesses = Some (T3 (full_F (des_F (ds_step sp)) 8 datas guesses)))
+  /\ (forall key, length key = 8%nat ->
+        des_expected_key_m row key = Some (nth (des_schedule_index ns (ds_key_use sp)) (des_key_schedule key) [])).
+Proof. exact des_wiring_pf. Qed.
+Print Assumptions des_wiring.
+
+(* word w of the four targeted steps of an iteration depends on the round key through its word w only, and is F_w *)
+Theorem des_step_word_is_F : forall K lr s w, okl 8 256 lr -> length K = 8%nat -> (w < 8)%nat -> tstep s ->
+  length (des_step K lr s) = 8%nat /\ nth w (des_step K lr s) 0 = des_Flr s lr (nth w K 0) w.
+Proof. exact des_step_word. Qed.
+Print Assumptions des_step_word_is_F.
+
+(* hence the all-equal-guess key gives in word w exactly what a real round key with K_w = g gives *)
+Theorem des_other_guesses_real_key : forall K K' lr s w,
+  okl 8 256 lr -> length K = 8%nat -> length K' = 8%nat -> (w < 8)%nat -> tstep s ->
+  nth w K 0 = nth w K' 0 -> nth w (des_step K lr s) 0 = nth w (des_step K' lr s) 0.
+Proof. exact des_step_word_indep. Qed.
+Print Assumptions des_other_guesses_real_key.
+
+(* spec level, ANY sixteen round keys in the order of use: F_w at the key word is word w of the targeted value of the operation,
+   for the classes reading the input (first iteration) and for those reading the output (last iterations seen through IP) *)
+Theorem des_targets_any_round_keys : forall rks inp sp, rks_ok rks -> okl 8 256 inp -> In sp des_rows_generic ->
+  okl 8 256 (des_data_of sp rks inp)
+  /\ forall w, (w < 8)%nat ->
+       des_F (ds_step sp) (des_data_of sp rks inp) (nth w (nth (ds_key_use sp) rks []) 0) w
+       = nth w (des_state_at rks inp (fst (ds_at sp)) (snd (ds_at sp))) 0.
+Proof. exact des_targets_any_keys. Qed.
+Print Assumptions des_targets_any_round_keys.
+
+(* the real operation under the TRUE 8-byte key: encryption (round keys K_1 .. K_16) / decryption (K_16 .. K_1) *)
+Theorem des_targets_true_key : forall ns sp key inp, In sp (des_targets ns) -> Des.is_block inp ->
+  let ks := des_key_schedule key in
+  let rks := des_rks ns ks in
+  let data := match ds_data sp with DIn => inp | DOut => des_core rks inp end in
+  let K := nth (des_schedule_index ns (ds_key_use sp)) ks [] in
+  Des.is_block data
+  /\ forall w, (w < 8)%nat -> des_F (ds_step sp) data (nth w K 0) w = nth w (des_state_at rks inp (fst (ds_at sp)) (snd (ds_at sp))) 0.
+Proof. exact des_targets_true_key_pf. Qed.
+Print Assumptions des_targets_true_key.
+
+Theorem des_hypothesis_at_true_key : forall ns row, In row (des_rows ns) ->
+  exists sp, find_des (r_name row) (des_targets ns) = Some sp /\
+  forall key inps guesses, length key = 8%nat -> Forall Des.is_block inps -> inps <> [] -> bytes_lt 64 guesses -> guesses <> [] ->
+    let rks := des_rks ns (des_key_schedule key) in
+    let datas := match ds_data sp with DIn => inps | DOut => map (des_core rks) inps end in
+    exists k v,
+      des_expected_key_m row key = Some k
+      /\ des_values_m row datas guesses = Some (T3 v)
+      /\ rect3 (length inps) (length guesses) 8 v
+      /\ forall t j w, (t < length inps)%nat -> (j < length guesses)%nat -> (w < 8)%nat ->
+           nth w (nth j (nth t v []) []) 0 = des_F (ds_step sp) (nth t datas []) (nth j guesses 0) w
+           /\ (nth j guesses 0 = nth w k 0 ->
+               nth w (nth j (nth t v []) []) 0 = nth w (des_state_at rks (nth t inps []) (fst (ds_at sp)) (snd (ds_at sp))) 0).
+Proof. exact des_hypothesis_pf. Qed.
+Print Assumptions des_hypothesis_at_true_key.
+
+(* des_state_at of the operation is what the impl-model of scared.des.encrypt / decrypt (at_round, after_step) of C06 returns *)
+Theorem des_targets_are_stop_points : forall ns key inp r s, Des.is_block key -> Des.is_block inp -> (r <= 15)%nat -> (s <= 9)%nat ->
+  Des.des_cipher (match ns with NsEncrypt => false | NsDecrypt => true end) 0 r s key inp
+  = Some (des_state_at (des_rks ns (des_key_schedule key)) inp r s).
+Proof. exact des_targets_are_stop_points_pf. Qed.
+Print Assumptions des_targets_are_stop_points.
+
+(* ================================================================ words and guesses *)
+(* sf(words = W)(x) = full(x)[:, :, W]: the model of values.swapaxes(0, -1)[words].swapaxes(0, -1) on a (nT, nG, nW) array is
+   the selection on the last axis, for every form of words (None / Ellipsis, int, list or ndarray, slice); refused selections
+   (index out of range, zero step) are refused on both sides *)
+Theorem words_slice : forall nT nG nW w v, rect3 nT nG nW v -> sf_call_m (Some (T3 v)) nT nG nW w = select_words nW w v.
+Proof. exact sf_call_pf. Qed.
+Print Assumptions words_slice.
+
+(* shape (traces, guesses, |W|); 2-D (traces, guesses) for an int *)
+Theorem words_slice_shape : forall nT nG nW w v t, rect3 nT nG nW v -> select_words nW w v = Some t ->
+  match w with
+  | WInt _ => exists m, t = T2 m /\ length m = nT /\ Forall (fun r => length r = nG) m
+  | _ => exists c ps, words_positions nW w = Some ps /\ t = T3 c /\ rect3 nT nG (length ps) c
+  end.
+Proof. exact select_words_shape_pf. Qed.
+Print Assumptions words_slice_shape.
+
+(* an accepted selection names positions of the axis only (python slice semantics included): no entry of the result comes from a
+   default value of the model *)
+Theorem words_positions_are_in_range : forall n w ps, words_positions n w = Some ps -> Forall (fun p => (p < n)%nat) ps.
+Proof. exact words_positions_in_range. Qed.
+Print Assumptions words_positions_are_in_range.
+
+(* sf(guesses = G)(x) = full(x)[:, G positions, :]: for guesses taken in the default range 0 .. n-1 (any subset, order, repetition)
+   the array is made of the corresponding planes of the array for the default guesses *)
+Theorem guesses_subset : forall F nW n data G, Forall (fun g => g < N.of_nat n) G ->
+  full_F F nW data G = select_guesses G (full_F F nW data (nrange n)).
+Proof. exact guesses_subset_pf. Qed.
+Print Assumptions guesses_subset.
+
+(* ================================================================ non-vacuity (FIPS vectors) *)
+Definition kB := Fips197.bytes_be 16 0x2b7e151628aed2a6abf7158809cf4f3c.
+Definition pB := Fips197.bytes_be 16 0x3243f6a8885a308d313198a2e0370734.
+Definition cB := Fips197.bytes_be 16 0x3925841d02dc09fbdc118597196a0b32.
+Definition kD := Fips46.bytes_be 8 0x133457799BBCDFF1.
+Definition pD := Fips46.bytes_be 8 0x0123456789ABCDEF.
+Definition cD := Fips46.bytes_be 8 0x85E813540F0AB405.
+
+Definition the_row (rows : list sf_row) (name : string) : sf_row :=
+  match find_row name rows with Some r => r | None => Build_sf_row "" "" "" 0 true "" "" end.
+
+(* the hypotheses of the theorems are met by the appendix vectors; the tables have the expected number of rows *)
+Example vectors_meet_hypotheses :
+  Aes.wf_key 4 kB /\ Aes.wf_block pB /\ Aes.wf_block cB /\ Des.is_block kD /\ Des.is_block pD.
+Proof.
+  assert (B : forall l, Aes.is_bytes l = true -> Forall (fun x => x < 256) l) by exact AesPrims.is_bytes_sound.
+  repeat split; try (apply B; vm_compute; reflexivity); vm_compute; reflexivity.
+Qed.
+
+Example tables_and_ciphertexts :
+  (length (aes_rows NsEncrypt), length (aes_rows NsDecrypt), length (des_rows NsEncrypt), length (des_rows NsDecrypt)) = (5, 5, 8, 8)%nat
+  /\ Cipher 4 kB pB = cB /\ des_core (des_key_schedule kD) pD = cD.
+Proof. vm_compute. repeat split; reflexivity. Qed.
+
+(* FIPS-197 Appendix B through the generated wiring: at the guesses k0[0] = 2b and k0[1] = 7e, FirstSubBytes(plaintext) gives
+   round[1].s_box bytes 0 and 1 = d4, 27 (the diagonal of the (guess, word) plane); LastSubBytes(ciphertext) at k10[0] = d0 gives byte 0 of round[10].start = eb;
+   the expected keys are the first and the last round key; and the decrypt namespace reads the same numbers from the other side *)
+Example appendix_B_through_the_wiring :
+  let fsb := the_row (aes_rows NsEncrypt) "FirstSubBytes" in
+  let lsb := the_row (aes_rows NsEncrypt) "LastSubBytes" in
+  let dfs := the_row (aes_rows NsDecrypt) "FirstSubBytes" in
+  sf_call_m (aes_values_m fsb [pB] [0x2b; 0x7e]) 1 2 16 (WList [0; 1]%Z) = Some (T3 [[[0xd4; 0x45]; [0x29; 0x27]]])
+  /\ aes_expected_key_m fsb kB = Some kB
+  /\ aes_expected_key_m lsb kB = Some (Fips197.bytes_be 16 0xd014f9a8c9ee2589e13f0cc8b6630ca6)
+  /\ sf_call_m (aes_values_m lsb [cB] [0xd0]) 1 1 16 (WInt 0) = Some (T2 [[0xeb]])
+  /\ sf_call_m (aes_values_m dfs [cB] [0xd0]) 1 1 16 (WInt 0) = Some (T2 [[0xeb]])
+  /\ r_target_tag dfs = "ciphertext"%string.
+Proof. vm_compute. repeat split; reflexivity. Qed.
+
+(* the DES worked example: at the words of K1 the S-box output of round 1 is 5 12 8 2 11 5 9 7 (column j = word j here) *)
+Example des_worked_example_through_the_wiring :
+  let fs := the_row (des_rows NsEncrypt) "FirstSboxes" in
+  des_expected_key_m fs kD = Some [6; 48; 11; 47; 63; 7; 1; 50]
+  /\ option_map (fun t => match t with T3 [plane] => map (fun j => nth j (nth j plane []) 0) (seq 0 8) | _ => [] end)
+       (des_values_m fs [pD] [6; 48; 11; 47; 63; 7; 1; 50]) = Some [5; 12; 8; 2; 11; 5; 9; 7]
+  /\ des_expected_key_m (the_row (des_rows NsEncrypt) "LastSboxes") kD = Some [50; 51; 54; 11; 3; 33; 31; 53].
+Proof. vm_compute. repeat split; reflexivity. Qed.
+
+(* the check functions of the correspondence harness accept a true observation and refuse a wrong one *)
+Example checks_discriminate :
+  let c (v : N) := {| ac_ns := NsEncrypt; ac_name := "LastSubBytes"; ac_key := kB; ac_inp := [pB]; ac_out := [cB];
+                      ac_guesses := Some [0xd0; 0x00]; ac_words := WInt 0; ac_obs := Some ([1; 2]%nat, [v; 0x5b]);
+                      ac_expkey := Fips197.bytes_be 16 0xd014f9a8c9ee2589e13f0cc8b6630ca6 |} in
+  aes_sf_check (c 0xeb) = true /\ aes_sf_corr (c 0xeb) = true /\ aes_sf_check (c 0xec) = false.
+Proof. vm_compute. repeat split; reflexivity. Qed.
